@@ -29,6 +29,23 @@ WRITES = re.compile(r"\.(insert|remove|clear|push|pop|extend|retain|drain|entry|
                     r"resize|reserve|shrink_to_fit|take|replace|set|get_or_insert\w*|or_insert\w*|and_modify)\s*\(")
 
 
+RELEASE = {}
+
+
+def block_end(lines, ln):
+    """line on which the innermost block that contains line `ln` closes (comments and strings are already stripped)"""
+    depth = 0
+    for k in range(ln, len(lines)):          # lines after the `let`
+        for ch in lines[k]:
+            if ch == "{":
+                depth += 1
+            elif ch == "}":
+                depth -= 1
+                if depth < 0:
+                    return k + 1
+    return len(lines)
+
+
 def statement_at(lines, ln):
     """the statement containing line ln (1-based): from the previous `;`/`{`/`}` line end to the next `;`"""
     i = ln - 1
@@ -95,6 +112,7 @@ def main():
                         if re.search(r"\breturn\b", stmt) and not bound:
                             pass
                         sites.append((crate, relpath, ln, enclosing_fn(lines, ln), TABLES[recv], bound, writes))
+                        RELEASE[(relpath, ln)] = block_end(lines, ln) if bound else ln
     # per function, in source order
     progs = {}
     for crate, f, ln, fn, tbl, bound, _ in sites:
@@ -107,17 +125,23 @@ def main():
     out.append("]\n\ndef lockSites : List LockSite := [")
     out.append(",\n".join(f'  {{ crate := "{c}", file := "{f}", func := "{fn}", table := .{t}, letBound := {"true" if b else "false"}, writes := {"true" if w else "false"} }}'
                           for c, f, ln, fn, t, b, w in sites))
-    out.append("]\n\n/-- lock program of each function that takes a lock: a temporary guard is released at the end of its statement, a `let`-bound one at\nthe end of the function -/\ndef lockProgs : List (String × Prog) := [")
+    out.append("]\n\n/-- lock program of each function that takes a lock: a temporary guard is released at the end of its statement, a `let`-bound one where\nits block closes -/\ndef lockProgs : List (String × Prog) := [")
     rows = []
+    relfile = {(crate, fn): f for crate, f, ln, fn, tbl, bound, _ in sites}
     for (crate, fn), ss in sorted(progs.items()):
-        acts, tail = [], []
-        for _, tbl, bound in sorted(ss):
-            if bound:
-                acts += [f".lock .{tbl}", ".work"]
-                tail = [f".unlock .{tbl}"] + tail
-            else:
-                acts += [f".lock .{tbl}", ".work", f".unlock .{tbl}"]
-        rows.append(f'  ("{fn}", [{", ".join(acts + tail)}])')
+        # events in source order: a temporary guard is released where it was taken, a `let`-bound one where its block closes
+        # (guards released by the same closing brace go in the reverse order of their declaration)
+        evs = []
+        for ln, tbl, bound in sorted(ss):
+            rel = RELEASE.get((relfile[(crate, fn)], ln), ln)
+            evs.append((ln, 0, 0, f".lock .{tbl}"))
+            evs.append((rel, 1, -ln, f".unlock .{tbl}"))
+        acts = []
+        for _, kind, _, a in sorted(evs):
+            acts.append(a)
+            if kind == 0:
+                acts.append(".work")
+        rows.append(f'  ("{fn}", [{", ".join(acts)}])')
     out.append(",\n".join(rows))
     out.append("]\n\nend Cte.Gen\n")
     path = os.environ.get("CTEVERIF_GEN_OUT") or os.path.join(VERIF, "lean", "Cte", "Gen", "LockSites.lean")
